@@ -465,6 +465,36 @@ func (fr *Frame) loopInvariants(st *State, ls *LoopSpec, key string, i string, p
 	}
 }
 
+func cloneStates(in []*State) []*State {
+	var out []*State
+	for _, s := range in {
+		if s != nil {
+			out = append(out, s.clone())
+		}
+	}
+	return out
+}
+
+// iterEnsuresAt checks the per-iteration post-conditions at an exit of the iteration other
+// than the back edge (break).
+func (fr *Frame) iterEnsuresAt(st, head *State, ls *LoopSpec, key, i string, n ast.Node) {
+	for k, c := range ls.IterEnsures {
+		lab := c.Label
+		if lab == "" {
+			lab = fmt.Sprint(k + 1)
+		}
+		env := fr.loopEnv(st, i)
+		env.head = fr.loopEnv(head, i)
+		env.old = head
+		t, err := fr.evalClause(env, c)
+		if err != nil {
+			fr.x.u.oblige("loop["+key+"]:iter:"+lab, "contract-stale", c.Src, fr.pos(n.Pos()), st.pc, "false").Clause = "contract-stale: " + err.Error()
+			continue
+		}
+		fr.x.u.oblige("loop["+key+"]:iter:"+lab, "iter-ensures", c.Src, fr.pos(n.Pos()), st.pc, t)
+	}
+}
+
 // iterEnsures checks the per-iteration post-conditions at the back edge.
 func (fr *Frame) iterEnsures(back, head *State, ls *LoopSpec, key, i string, n ast.Node) {
 	if ls == nil {
@@ -567,12 +597,18 @@ func (fr *Frame) forStmt(st *State, n *ast.ForStmt, label string) flow {
 			out.cont = append(out.cont, c)
 		}
 	}
+	var brkStates []*State
 	for _, b := range f.brk {
 		if b.label == "" || b.label == label {
 			exits = append(exits, b.st)
+			brkStates = append(brkStates, b.st)
 		} else {
 			out.brk = append(out.brk, b)
 		}
+	}
+	// an iteration that leaves through break is an iteration too: its transition clauses hold
+	if bs := x.merge(cloneStates(brkStates)); bs != nil && ls != nil && len(ls.IterEnsures) > 0 {
+		fr.iterEnsuresAt(bs, headSnap, ls, key+":break", ih, n)
 	}
 	back := x.merge(ends)
 	if back != nil {
@@ -736,12 +772,17 @@ func (fr *Frame) rangeStmt(st *State, n *ast.RangeStmt, label string) flow {
 			out.cont = append(out.cont, c)
 		}
 	}
+	var brkStates []*State
 	for _, b := range f.brk {
 		if b.label == "" || b.label == label {
 			exits = append(exits, b.st)
+			brkStates = append(brkStates, b.st)
 		} else {
 			out.brk = append(out.brk, b)
 		}
+	}
+	if bs := x.merge(cloneStates(brkStates)); bs != nil && ls != nil && len(ls.IterEnsures) > 0 {
+		fr.iterEnsuresAt(bs, bodySt0, ls, key+":break", ih, n)
 	}
 	back := x.merge(ends)
 	if back != nil {
